@@ -8,7 +8,13 @@ dst = "/verif/seeded/" + name
 os.makedirs(dst, exist_ok=True)
 for f in os.listdir(src):
     fp = os.path.join(src, f)
-    if os.path.isdir(fp) or os.path.getsize(fp) > 200000 or re.search(r"\.(log|txt|out)$", f) or f.startswith("git-lfs"):
+    if os.path.isdir(fp):
+        # small helper source directories of a demonstration (e.g. demo/, lfsserver/) are kept; build output and scratch are not
+        if f in ("bin", "scratch", "tmp") or sum(os.path.getsize(os.path.join(r, x)) for r, _, fs in os.walk(fp) for x in fs) > 300000:
+            continue
+        shutil.copytree(fp, os.path.join(dst, f), dirs_exist_ok=True)
+        continue
+    if os.path.getsize(fp) > 200000 or re.search(r"\.(log|txt|out)$", f) or f.startswith("git-lfs"):
         continue
     shutil.copy(fp, os.path.join(dst, f))
 if not needs:
